@@ -3,7 +3,7 @@ sys.path.insert(0, '/verif/.deps'); sys.path.insert(0, '/verif')
 sys.setrecursionlimit(100000)
 from pyvc.contract import generate, REG
 from pyvc.solve import solve_all
-import contracts.sort_enforcement, contracts.general, contracts.chunk
+import contracts.all
 names = sys.argv[1:] or list(REG.contracts)
 for key in names:
     c = REG.contracts[key]
